@@ -234,11 +234,13 @@ class ParseContext(ParserEngine):
 
     @contextmanager
     def if_(self) -> Any:
+        depth = len(self.states.state_stack)
         self.states.push()
         try:
             yield
         finally:
-            self.states.undo()
+            # also drops scopes left open by an exception that is not a FailedParse
+            del self.states.state_stack[depth:]
 
     _if = if_
 
